@@ -33,3 +33,13 @@ verif_replay_next(const char* ty)
     /* trace exhausted: the model path ended earlier; further draws are arbitrary */
     return 0;
 }
+
+/* generated C (ir2c) marks unreachable / unwind-only paths with __CPROVER_assume(0) */
+void
+__CPROVER_assume(int c)
+{
+    if (!c) {
+        fprintf(stderr, "REPLAY: assume(0) reached in translated code (path outside the model)\n");
+        exit(77);
+    }
+}
